@@ -157,6 +157,18 @@ EXT4={
  "C19":" A bare Description directly before each method's Tags.",
  "C20":" Fresh types that inherit from / refer to existing types.",
 }
+EXT5={
+ "C01":" A zero byte at every subset of 1..3 of 17 places of one accepted document (LF and CRLF).",
+ "C02":" The zero-byte stream; INCLUDE lines whose file name follows a block comment of several lines.",
+ "C03":" Every multi-instance document also with names that differ in letter case only.",
+ "C05":" The end of the input: without the final line end, then with blanks, comments and blank lines after the last byte.",
+ "C07":" Macro bodies ending in an open directive pasted into a URL block, followed by one directive of each of 11 kinds and another method.",
+ "C08":" A file of exactly the rejected name exists during the run.",
+ "C13":" One named type as the body of several Path directives (24 orders x 81 declaration patterns).",
+ "C15":" Lines starting with digits that are no response code.",
+ "C18":" Every kind's keyword as a parameter value, annotation or body string (bare and quoted) with that kind banned.",
+ "C20":" Fresh heirs of every object type of the pool.",
+}
 for k,v in EXT.items():
     CHECKS[k]["text"]+=v
 for k,v in EXT2.items():
@@ -164,6 +176,8 @@ for k,v in EXT2.items():
 for k,v in EXT3.items():
     CHECKS[k]["text"]+=v
 for k,v in EXT4.items():
+    CHECKS[k]["text"]+=v
+for k,v in EXT5.items():
     CHECKS[k]["text"]+=v
 ENGINES=[
  {"name":"E-REFCAT","path":"internal/checks/refcat.go","serves_properties":[],"kind_free_text":"reference compiler (real lexemes -> reference resolver of C06 -> PASTE substitution -> expected interactions, tags, path variables, names, faults) run over fixtures, pool selections and, through a tap, the documents of the generators of C04 / C13 / C19; serves C04 C06 C07 C11 C13 C19 next to their own engines"},
